@@ -64,6 +64,29 @@ theorem singleton_adds_exactly_one (bedges : Array (Nat × Nat)) (n b : Nat) (φ
   ⟨credit_first bedges b φ hb hne, credit_second bedges b φ hb hne,
    fun e h1 h2 => credit_other bedges b φ e h1 h2, credit_total bedges n b φ hb hr⟩
 
+/-- **In total the reallocation adds exactly one mutation per unphased singleton with a valid phase**: summed
+over all edges, the amounts credited equal the number of blocked mutations whose phase is not NaN (what the
+kernel's closing `np.isclose` assertion compares with the total it removed). -/
+theorem reallocate_total_is_number_of_singletons (close : α → α → Bool) (lik out : Array α)
+    (mblock : List (Option Nat)) (phase : List (Option α)) (bedges : Array (Nat × Nat))
+    (h : reallocate close lik mblock phase bedges = some out) :
+    (Finset.range lik.size).sum (fun e => ((mblock.zip phase).map (credit bedges e)).sum)
+      = ((mblock.zip phase).map validOne).sum := by
+  obtain ⟨_, _, _, hx, _, hbr⟩ := reallocate_spec close lik out mblock phase bedges h
+  exact credits_total bedges lik.size hbr _ (fun b φ hm => (hx b φ hm).1)
+
+/-- **The share formula the check's oracle uses**: with `p = max φ (1-φ)` the phase reported after `infer`,
+a blocked singleton contributes `p` to the edge it is placed on and `1 - p` to the other edge of its block
+(`φ < 1/2`: placed on the second edge, `p = 1 - φ`; otherwise on the first, `p = φ`). -/
+theorem share_by_reported_phase (bedges : Array (Nat × Nat)) (b : Nat) (φ : α) (e : Nat)
+    (hb : b < bedges.size) (hne : (aget bedges b).1 ≠ (aget bedges b).2) :
+    credit bedges e (some b, some φ) =
+      if φ < 1 / 2 then
+        (if e = (aget bedges b).2 then 1 - φ else 0) + (if e = (aget bedges b).1 then 1 - (1 - φ) else 0)
+      else
+        (if e = (aget bedges b).1 then φ else 0) + (if e = (aget bedges b).2 then 1 - φ else 0) :=
+  credit_by_reported_phase bedges b φ e hb hne
+
 /-- Phases that reach the additions are probabilities, and every referenced block exists (the kernel's
 assertions). -/
 theorem reallocate_phases_valid (close : α → α → Bool) (lik out : Array α)
